@@ -254,6 +254,18 @@ def read_form_descriptor(ffi, form):
     return d
 
 
+def read_expression_descriptor(ffi, e):
+    d = {k: int(getattr(e, k)) for k in ("num_coefficients", "num_constants", "num_points", "entity_dimension", "num_components", "rank")}
+    d["coordinate_element_hash"] = int(e.coordinate_element_hash)
+    d["original_coefficient_positions"] = [int(e.original_coefficient_positions[i]) for i in range(d["num_coefficients"])]
+    d["coefficient_names"] = [ffi.string(e.coefficient_names[i]).decode() for i in range(d["num_coefficients"])]
+    d["constant_names"] = [ffi.string(e.constant_names[i]).decode() for i in range(d["num_constants"])]
+    n = d["num_points"] * d["entity_dimension"]
+    d["points"] = [float(e.points[i]) for i in range(n)]
+    d["value_shape"] = [int(e.value_shape[i]) for i in range(d["num_components"])]
+    return d
+
+
 ITYPES = ["cell", "exterior_facet", "interior_facet", "vertex", "ridge"]
 
 
